@@ -309,6 +309,16 @@ def separable_states(rng, dims, tier):
         for rep in range(2 if tier == 'quick' else 6):
             out.append((f'random_{k}_terms', mix([[_rc(rng, d) for d in dims] for _ in range(k)], rng.dirichlet(np.ones(k)))))
     out.append(('real_product_vectors', mix([[rng.normal(size=d) + 0j for d in dims] for _ in range(D)])))
+    # the same kind of states handed over in other array dtypes: integer one-hot product states, real float64 / float32 mixtures, complex64
+    for k in range(2):
+        e = np.array([1], dtype=np.int64)
+        for j, d in enumerate(dims):
+            e = np.kron(e, np.eye(d, dtype=np.int64)[(k + j) % d])
+        out.append((f'int64_basis_product_{k}', np.outer(e, e)))
+        out.append((f'int32_basis_product_{k}', np.outer(e, e).astype(np.int32)))
+    rr = mix([[rng.normal(size=d) + 0j for d in dims] for _ in range(3)]).real
+    out.append(('float64_real_mixture', rr)); out.append(('float32_real_mixture', rr.astype(np.float32)))
+    out.append(('complex64_mixture', mix([[_rc(rng, d) for d in dims] for _ in range(3)]).astype(np.complex64)))
     return out
 
 
@@ -340,6 +350,16 @@ def job_separable(tier, rng, dims):
             if not from_repo(ex):
                 raise
             res = {f'exception:{type(ex).__name__}: {str(ex)[:80]}': False}
+        if label.startswith('random_2_terms') or label == 'pure_product_haar':
+            # the dimensions may be handed over as a numpy array, including a non-contiguous view: same answer as for the tuple
+            try:
+                dv = np.array(dims[::-1])[::-1]
+                res['is_ppt'] = res.get('is_ppt', True) and bool(numqi.entangle.is_ppt(rho, dv)) and bool(numqi.entangle.is_ppt(rho, list(dims)))
+                res['check_reduction_witness'] = res.get('check_reduction_witness', True) and bool(numqi.entangle.check_reduction_witness(rho, dv))
+            except Exception as ex:
+                if not from_repo(ex):
+                    raise
+                res[f'exception:{type(ex).__name__}: {str(ex)[:80]}'] = False
         cnt += 1; nontriv += int('pure' not in label and label != 'maximally_mixed')
         for k, ok in res.items():
             if not ok:
@@ -407,7 +427,9 @@ def job_extension(tier, rng):
     ks = [2] if tier == 'quick' else [2, 3]
     for dims in [(2, 2), (2, 3)]:
         sts = separable_states(rng, dims, 'quick')
-        pick = [sts[0], sts[2], sts[4], sts[7], sts[-1]]
+        # one batch in double precision (the SDP front end requires |tr rho - 1| < 1e-10: the single-precision variants of separable_states are outside its domain; real / integer inputs are passed one by one below)
+        byl = lambda lab: next(x for x in sts if x[0] == lab)
+        pick = [sts[0], sts[2], sts[4], sts[7], byl('real_product_vectors')]
         rhos = [r for _, r in pick]
         for k in ks:
             for use_ppt, use_boson in [(False, False), (False, True), (True, True)]:
@@ -423,6 +445,17 @@ def job_extension(tier, rng):
                 cnt += len(rhos)
                 if not ok and bad is None:
                     bad = dict(dims=list(dims), kext=k, use_ppt=use_ppt, use_boson=use_boson, verdicts=[str(x) for x in np.asarray(ret).tolist()], states=[l for l, _ in pick])
+        for lab in ('float64_real_mixture', 'int64_basis_product_0'):     # single precision is outside the SDP front end's own precondition (|tr rho - 1| < 1e-10)
+            try:
+                ret = numqi.entangle.is_ABk_symmetric_ext(byl(lab)[1], dims, 2, use_ppt=False, use_boson=False)
+                ok = bool(ret)
+            except Exception as ex:
+                if not from_repo(ex):
+                    raise
+                ok = False; ret = f'{type(ex).__name__}: {ex}'
+            cnt += 1
+            if not ok and bad is None:
+                bad = dict(dims=list(dims), kext=2, use_ppt=False, use_boson=False, verdicts=[str(ret)], states=[lab])
     return [ob(f'{PROP}.symmetric_bosonic_extension_accepts_separable', 'pass' if bad is None else 'refuted', tier='B', backend='native', functions=['numqi.entangle.symext:is_ABk_symmetric_ext'],
                evaluations=cnt, distinct_nontrivial=cnt, witness=bad, native=dict(confirmed=bad is not None))]
 
